@@ -485,6 +485,11 @@ class BinTableNumpy(AbstractBinTable):
     def _transform_data_fromlists(data: List[List[bool]]) -> npt.NDArray[bool]:
         return np.array(data)
 
+    def _get_subtable(self, row_slicer, column_slicer) -> 'BinTableNumpy':
+        if column_slicer is None:
+            return self.__class__(self.data[row_slicer])
+        return self.__class__(self.data[row_slicer][:, column_slicer])
+
     def _validate_data(self, data: npt.NDArray[bool]) -> bool:
         if len(data) == 0:
             return True
